@@ -421,3 +421,34 @@ pub fn nontrivial(ops: &[Op], need_gc: bool) -> bool {
         two_versions_then_write
     }
 }
+
+/// Run the real store on every history, on `threads` threads (one store and one query engine
+/// per case / per thread).  Returns per case: the dumps, the engine mismatch (checked on every
+/// `engine_every`-th case, 0 = never) and the non-triviality flag.
+pub fn run_all(seqs: &[Vec<Op>], threads: usize, engine_every: usize, need_gc: bool) -> Vec<(String, Option<String>, bool)> {
+    let n = seqs.len();
+    let mut out: Vec<(String, Option<String>, bool)> = vec![(String::new(), None, false); n];
+    let per = (n + threads - 1) / threads.max(1);
+    if per == 0 {
+        return out;
+    }
+    std::thread::scope(|sc| {
+        for (ci, (slice, res)) in seqs.chunks(per).zip(out.chunks_mut(per)).enumerate() {
+            sc.spawn(move || {
+                let engine = QueryEngine::new();
+                for (j, ops) in slice.iter().enumerate() {
+                    let k = ci * per + j;
+                    let r = std::panic::catch_unwind(std::panic::AssertUnwindSafe(|| {
+                        let mut em = None;
+                        let use_engine = engine_every > 0 && k % engine_every == 0;
+                        let o = run_real(ops, if use_engine { Some(&engine) } else { None }, &mut em);
+                        let nt = nontrivial(ops, need_gc);
+                        (o, em, nt)
+                    }));
+                    res[j] = r.unwrap_or_else(|_| ("PANIC".to_string(), None, false));
+                }
+            });
+        }
+    });
+    out
+}
